@@ -36,22 +36,26 @@ theorem pass_identical (f : Frame) (m : Maps) (clk : UInt64) (f' : Frame) (hlen 
 
 /-! ### (1) a transmitted frame is a well-formed reply to its request -/
 
-/-- Whenever the fast path transmits, the frame passes every check of `replyDefect` against its request:
-    frame length = L2 header + `tot_len`, `udp.len + 20 = tot_len`, EtherType/VLAN tags as received, IP
-    version/IHL/TOS and protocol as received (IHL 5, protocol 17 — else the request is not accepted), the IP header's
-    one's-complement sum is 0xFFFF (`Bng.Checksum.csum_correct`), UDP ports 67 → 68 (67 → 67 when relayed), BOOTP
-    op = 2, xid / chaddr / magic cookie as received, the options are TLVs ending with END as the last byte of the frame,
-    `tot_len = 268 + options`; and its option 53 is OFFER if the program read DISCOVER, ACK if it read REQUEST. -/
+/-- Whenever the fast path transmits, the frame passes every check of `replyDefect` against its request, the server
+    MAC and the server address `serverIpOf cfg pool` of the cache entry it answered from:
+    Ethernet destination (relay's MAC / broadcast / chaddr as `setup_reply_l2_headers` decides) and source (server
+    MAC), EtherType/VLAN tags as received; IP version/IHL/TOS and protocol as received (IHL 5, protocol 17 — else
+    the request is not accepted), TTL 64, source = server address, destination = giaddr or 255.255.255.255, frame
+    length = L2 header + `tot_len`, the header's one's-complement sum is 0xFFFF (`Bng.Checksum.csum_correct`); UDP ports
+    67 → 68 (67 → 67 when relayed), `udp.len + 20 = tot_len`, checksum 0; BOOTP op = 2, htype/hlen, xid/secs/flags/
+    ciaddr, giaddr/chaddr and magic cookie as received, hops 0, siaddr = server address, sname and file zeroed; the
+    options are TLVs ending with END as the last byte of the frame, `tot_len = 268 + options`; and its option 53 is
+    OFFER if the program read DISCOVER, ACK if it read REQUEST. -/
 theorem tx_wellformed (f : Frame) (m : Maps) (clk : UInt64) (f' : Frame) (hlen : f.length < 65536)
     (h : run f m clk = .ok (XDP_TX, f')) :
-    ∃ p t, parseHeaders f = .ok (some p) ∧ getMsgType f p.dhcpOff = .ok t ∧
-      replyDefect f f' p = none ∧
+    ∃ p t a pool cfg, Hit f m clk p t a pool cfg ∧
+      replyDefect f f' p (rdBytes cfg 0 6) (leBytes 4 (serverIpOf cfg pool).toNat) = none ∧
       ((t = DHCP_DISCOVER ∧ opt 53 (f'.drop (p.dhcpOff + 240)) = some [DHCP_OFFER]) ∨
        (t = DHCP_REQUEST ∧ opt 53 (f'.drop (p.dhcpOff + 240)) = some [DHCP_ACK])) := by
   rcases ((run_Ok f m clk).elim h).2 hlen with h1 | ⟨p, t, a, pool, cfg, hh, h2⟩
   · exact absurd (Prod.mk.inj h1).1 (by decide)
   · have hf : f' = replyP f p t a pool cfg := (Prod.mk.inj h2).2
-    refine ⟨p, t, hh.parsed, hh.mt, ?_, ?_⟩
+    refine ⟨p, t, a, pool, cfg, hh, ?_, ?_⟩
     · rw [hf]; exact reply_wellformed hh.wf hh.room t a pool cfg
     · have ht := reply_type hh.wf hh.room t a pool cfg
       rw [← hf] at ht
@@ -66,8 +70,8 @@ theorem tx_type_partial (f : Frame) (m : Maps) (clk : UInt64) (f' : Frame) (hlen
     ∃ p t, parseHeaders f = .ok (some p) ∧ getMsgType f p.dhcpOff = .ok t ∧
       (trueMsgType (f.drop (p.dhcpOff + 240)) = some t →
         opt 53 (f'.drop (p.dhcpOff + 240)) = wantedReply (trueMsgType (f.drop (p.dhcpOff + 240)))) := by
-  obtain ⟨p, t, hp, ht, _, hty⟩ := tx_wellformed f m clk f' hlen h
-  refine ⟨p, t, hp, ht, ?_⟩
+  obtain ⟨p, t, a, pool, cfg, hh, _, hty⟩ := tx_wellformed f m clk f' hlen h
+  refine ⟨p, t, hh.parsed, hh.mt, ?_⟩
   intro he
   rw [he]
   rcases hty with ⟨e, h53⟩ | ⟨e, h53⟩
